@@ -3,18 +3,26 @@
 spec/redis/Upstream.tla (one backend connection: senders, writer, reader, Start tail, Stop, backend, reset; requests
 redirected by -ASK and the writer's ASKING hand-over; the write buffer), spec/redis/UpstreamGen.tla (behaviour emitter,
 stratified over the fault point), spec/redis/UpstreamSplit.tla (a split request whose children are answered by different
-goroutines), cfg files MC_Upstream_*.cfg, Gen_Upstream*.cfg, MC_UpstreamSplit_*.cfg, Gen_UpstreamSplit.cfg
+goroutines), cfg files MC_Upstream_*.cfg, Gen_Upstream*.cfg (incl. Gen_Upstream_banned.cfg, Gen_Upstream_cex_*.cfg),
+MC_UpstreamSplit_*.cfg, Gen_UpstreamSplit.cfg
  1. exhaustive TLC runs of the repaired design (safety + liveness under fairness), with and without a request that
     carries the asking mark;
  2. every broken variant must still yield its counterexample (anti-vacuity): the three pinned loss windows (Fix* = FALSE),
     the unflushed buffer behind a filtered request, the ASKING hand-over that answers the placeholder instead of the
     request in hand (AskAnswersInHand = FALSE), the child counter decremented and tested in two steps
-    (AtomicDecTest = FALSE);
+    (AtomicDecTest = FALSE), the sender that drains once quit is closed instead of stopped (DrainAfterStopped = FALSE: a
+    request gets the reply of another, OwnReply / PairingFIFO), the failed flush behind a filter-answered request that answers
+    it again (FilteredFailAnswers = TRUE); in the quick tier the variants that have a counterexample stratum (3c) are shown
+    to violate by that generation run, the thorough tier model checks them as well;
  3. spec -> code: TLC simulation emits behaviours (UpstreamGen.tla) stratified over the point at which the fault strikes;
     a mandatory stratum per named window is drawn from them every run; each behaviour is forced on the real goroutines of
     a real Redis processor through the verifhook gates (several worker processes), the client's queue lengths, latches and
     completion counts are compared with the model after every step, and at the end every request must have got exactly
-    one reply on its (open) downstream connection and the stopping call must have returned;
+    one reply on its (open) downstream connection - the value of its own key or an error (every key holds its own name) -
+    and the stopping call must have returned; requests named b* are commands the compress filter answers itself (GETRANGE,
+    compression enabled); a worker process that dies with 'close of closed channel' is a double completion;
+ 3c. counterexample strata: violating behaviours of the broken variants (Gen_Upstream_cex_*.cfg, EmitViolating) replayed as
+    schedules on the real code, which leaves them where the variant deviates unless it has become that variant;
  3b-3e. scenarios at the real queue capacity (1024): full queues, a request held at the ASKING hand-over by a full
     processing queue, split requests whose children fail, split requests whose last children are answered at the same
     instant by different goroutines (vectors from UpstreamSplit.tla);
@@ -24,6 +32,7 @@ goroutines), cfg files MC_Upstream_*.cfg, Gen_Upstream*.cfg, MC_UpstreamSplit_*.
 import json
 import os
 import random
+import re
 import threading
 import time
 
@@ -33,12 +42,30 @@ from checks import pipeline
 LEVEL = "model_checking"
 
 # named windows of Upstream.tla, most specific first (the first one a violating behaviour passed through names the signature)
-WINDOWS = ["W_AskHandoffQuit", "W_ReaderWaitsForHandoff", "W_ReaderHoldsReplyAtQuit", "W_EnqueueAfterDrain",
-           "W_WriterHandoffQuit", "W_CheckedThenQuit", "W_AskHandoffBlocked", "W_SenderBlockedOnDeadQueue"]
+WINDOWS = ["W_FilteredFlushOnDeadConn", "W_AskHandoffQuit", "W_ReaderWaitsForHandoff", "W_ReaderHoldsReplyAtQuit", "W_EnqueueAfterDrain",
+           "W_WriterHandoffQuit", "W_SenderEnqueuedAtQuit", "W_CheckedThenQuit", "W_AskHandoffBlocked", "W_SenderBlockedOnDeadQueue"]
+# counterexample strata: behaviours of the broken variants of Upstream.tla (the anti-vacuity configurations) that violate a
+# safety property there, replayed on the real code as schedules. The real code leaves such a schedule where the broken
+# variant deviates (the replay diverges, everything is released, the property predicate judges the run) - unless the code
+# has become that variant. cfg -> what the variant is
+CEX = {"Gen_Upstream_cex_drainonquit.cfg": "a sender drains the queues once quit is closed (DrainAfterStopped = FALSE)",
+       "Gen_Upstream_cex_filteredfail.cfg": "a failed flush behind a filter-answered request answers it again (FilteredFailAnswers = TRUE)",
+       "Gen_Upstream_cex_reader.cfg": "the reader does not watch quit while it waits for the hand-over (FixReader = FALSE)",
+       "Gen_Upstream_cex_handoff.cfg": "the writer drops the request in hand when quit wins the hand-over (FixHandoff = FALSE)",
+       "Gen_Upstream_cex_askbroken.cfg": "the writer answers the placeholder at the ASKING hand-over (AskAnswersInHand = FALSE)"}
 # windows that depend on the scaled queue capacity of the model: the real queues (1024) are neither full nor blocking in a
 # replay of three requests; they are exercised at the real capacity by c02-fullqueue / c02-askfull
 SCALED_ONLY = {"W_AskHandoffBlocked", "W_SenderBlockedOnDeadQueue"}
 MANDATORY = [w for w in WINDOWS if w not in SCALED_ONLY]
+
+
+# at most this many TLC processes of this check at a time (other checks run beside us); the generators go first
+TLC_SLOTS = threading.BoundedSemaphore(8)
+
+
+def limited(fn, *a, **kw):
+    with TLC_SLOTS:
+        return fn(*a, **kw)
 
 
 class Bg(threading.Thread):
@@ -64,7 +91,7 @@ class Bg(threading.Thread):
 
 
 def gen_behaviours(ctx, cfg, num, depth, seed):
-    r = ctx.tlc("redis", "UpstreamGen", cfg, mode="sim", workers=1, sim_num=num, sim_depth=depth,
+    r = limited(ctx.tlc, "redis", "UpstreamGen", cfg, mode="sim", workers=1, sim_num=num, sim_depth=depth,
                 seed=seed, deadlock=False, timeout=300)
     if r.timeout or (r.error and "@@BEH" not in r.stdout):
         raise kit.Inconclusive("behaviour generation failed: " + r.error[:500])
@@ -139,7 +166,9 @@ def select_behaviours(ctx, behs, per_window, per_point, total):
     return out, len(uniq)
 
 
-def primary_window(windows):
+def primary_window(windows, prefer=None):
+    if prefer and prefer in windows:
+        return prefer
     for w in WINDOWS:
         if w in windows:
             # one class, one name: the reader holds a decoded reply that it cannot pair while the connection quits
@@ -197,13 +226,13 @@ def finish_pipeline(ctx, job, label):
         ctx.notes.append("pipeline stage inconclusive after violations")
 
 
-def replay_sharded(ctx, behs, shards, attempts):
+def replay_sharded(ctx, behs, shards, attempts, tag=""):
     """forced replay in `shards` worker processes (the hook scheduler is process wide); returns results by behaviour index"""
-    bfile = os.path.join(ctx.work, "behaviours.ndjson")
+    bfile = os.path.join(ctx.work, "behaviours%s.ndjson" % tag)
     kit.write_ndjson(bfile, [b["steps"] for b in behs])
     jobs = []
     for k in range(shards):
-        rfile = os.path.join(ctx.work, "replay-%d.ndjson" % k)
+        rfile = os.path.join(ctx.work, "replay%s-%d.ndjson" % (tag, k))
         jobs.append((rfile, Bg(ctx.harness, ["c02-replay", "-in", bfile, "-out", rfile, "-attempts", str(attempts),
                                              "-shard", str(k), "-of", str(shards), "-stopafter", "1"],
                                timeout=1500, allow_fail=True)))
@@ -221,7 +250,7 @@ def replay_sharded(ctx, behs, shards, attempts):
             started = None
         if rc != 0:
             crashes.append((rc, se, started))
-    kit.log("[go] c02-replay: %d behaviours in %d worker processes, %.1fs" % (len(behs), shards, time.time() - t0))
+    kit.log("[go] c02-replay%s: %d behaviours in %d worker processes, %.1fs" % (tag, len(behs), shards, time.time() - t0))
     return results, crashes
 
 
@@ -234,26 +263,56 @@ def run(ctx):
         "the write buffer (4096 bytes) holds fewer requests than the processing queue has entries (BufCap < QCap in the exhaustive runs with an asking request)",
     ]
     # 3. behaviours for the forced replay: generated first, the replay is the longest chain of this check
-    num = 6000 if ctx.thorough else 1500
+    num = 6000 if ctx.thorough else 1200
     gen_jobs = [Bg(gen_behaviours, ctx, "Gen_Upstream.cfg", num, 160, ctx.seed),
-                Bg(gen_behaviours, ctx, "Gen_Upstream_ask.cfg", num, 160, ctx.seed + 1)]
+                Bg(gen_behaviours, ctx, "Gen_Upstream_ask.cfg", num, 160, ctx.seed + 1),
+                Bg(gen_behaviours, ctx, "Gen_Upstream_banned.cfg", num // 2, 160, ctx.seed + 2)]
+    cex_jobs = {}
     # 3b-3e. scenarios at the real queue capacity, beside the model checking
     scen_jobs = start_scenarios(ctx)
     # 4. (runs beside everything else) free-running pipelines with faults, trace validated against PipelineObs
     pipe_job = Bg(pipeline.run_pipelines, ctx, faults=True, label="c02")
     try:
-        run_stages(ctx, gen_jobs, scen_jobs, pipe_job, num)
+        run_stages(ctx, gen_jobs, cex_jobs, scen_jobs, pipe_job, num)
     finally:
         if pipe_job.is_alive():   # never leave the shared driver behind (it has no deadline of its own)
             kill_own("pipe-c02.ndjson")
 
 
-def run_stages(ctx, gen_jobs, scen_jobs, pipe_job, num):
+def select_cex(ctx, cex_jobs, per_variant):
+    rnd = random.Random(ctx.seed)
+    out = []
+    for cfg in sorted(cex_jobs):
+        behs = cex_jobs[cfg].wait()
+        if not behs:
+            raise kit.Inconclusive("the broken variant %s emitted no violating behaviour" % cfg)
+        uniq, seen = [], set()
+        for b in behs:
+            k = beh_key(b)
+            if k not in seen:
+                seen.add(k)
+                uniq.append(b)
+        uniq.sort(key=lambda b: (len(b["steps"]), beh_key(b)))   # short counterexamples first, a seeded sample of them
+        pool = uniq[:max(per_variant * 4, 8)]
+        rnd.shuffle(pool)
+        for b in pool[:per_variant]:
+            b = dict(b)
+            b["stratum"] = "cex:" + cfg[len("Gen_Upstream_cex_"):-len(".cfg")]
+            b["windows"] = sorted(beh_windows(b))
+            out.append(b)
+    return out
+
+
+def run_stages(ctx, gen_jobs, cex_jobs, scen_jobs, pipe_job, num):
     # 1. exhaustive, repaired design; 2. the broken variants still yield their counterexamples
     lost = ["NoLostRequest", "NoStuckSender", "TEMPORAL"]
-    mcs = [("Upstream", "MC_Upstream_fixed.cfg" if ctx.thorough else "MC_Upstream_fixed_quick.cfg", None, 6, not ctx.thorough)]
+    mcs = [("Upstream", "MC_Upstream_fixed.cfg" if ctx.thorough else "MC_Upstream_fixed_quick.cfg", None, 6 if ctx.thorough else 3, not ctx.thorough)]
+    # quick tier: a broken variant whose counterexample stratum is generated below (CEX: TLC must find violating behaviours of
+    # it, see select_cex) is not model checked a second time; the thorough tier runs its exhaustive configuration as well
+    redundant = not ctx.thorough
     for variant in ("handoff", "send", "reader"):
-        mcs.append(("Upstream", "MC_Upstream_%s.cfg" % variant, lost, 2, False))
+        if variant == "send" or not redundant:
+            mcs.append(("Upstream", "MC_Upstream_%s.cfg" % variant, lost, 2, False))
     # a request answered by the filter chain itself (command disabled in compress mode) behind buffered requests
     mcs.append(("Upstream", "MC_Upstream_banned_fixed.cfg", None, 3, False))
     mcs.append(("Upstream", "MC_Upstream_banned_pinned.cfg", lost, 2, False))
@@ -264,12 +323,23 @@ def run_stages(ctx, gen_jobs, scen_jobs, pipe_job, num):
     else:
         mcs.append(("Upstream", "MC_Upstream_ask_stop.cfg", None, 3, False))
         mcs.append(("Upstream", "MC_Upstream_ask_reset.cfg", None, 2, False))
-    mcs.append(("Upstream", "MC_Upstream_ask_broken.cfg", lost, 2, False))
+    if not redundant:
+        mcs.append(("Upstream", "MC_Upstream_ask_broken.cfg", lost, 2, False))
+        # a sender that drains on quit instead of stopped: a request gets the reply of another
+        mcs.append(("Upstream", "MC_Upstream_drainonquit.cfg", ["PairingFIFO", "OwnReply"], 2, False))
+        mcs.append(("Upstream", "MC_Upstream_drainonquit3.cfg", ["PairingFIFO", "OwnReply"], 3, False))
+        # a failed flush behind a filter-answered request that answers the request again
+        mcs.append(("Upstream", "MC_Upstream_filteredfail.cfg", ["AtMostOnce"], 2, False))
     # a split request: the last children answered by different goroutines
     mcs.append(("UpstreamSplit", "MC_UpstreamSplit_fixed.cfg", None, 2, False))
     mcs.append(("UpstreamSplit", "MC_UpstreamSplit_broken.cfg", ["ParentAtMostOnce"], 2, False))
-    mc_jobs = [(m, cfg, exp, Bg(ctx.mc, "redis", m, cfg, workers=wk, timeout=1500, coverage=cov, expect_violated=exp, count=False))
+    # the clean runs are the long ones: they go first, the counterexample runs (which stop at the first violation) and the
+    # generators of the counterexample strata fill the remaining slots
+    mcs.sort(key=lambda x: (x[2] is not None))
+    mc_jobs = [(m, cfg, exp, Bg(limited, ctx.mc, "redis", m, cfg, workers=wk, timeout=1500, coverage=cov, expect_violated=exp, count=False))
                for (m, cfg, exp, wk, cov) in mcs]
+    for cfg in sorted(CEX):
+        cex_jobs[cfg] = Bg(gen_behaviours, ctx, cfg, 2000 if ctx.thorough else 300, 160, ctx.seed + 3)
     behs = []
     for j in gen_jobs:
         behs += j.wait()
@@ -278,6 +348,8 @@ def run_stages(ctx, gen_jobs, scen_jobs, pipe_job, num):
     chosen, n_uniq = select_behaviours(ctx, behs, per_window=40 if ctx.thorough else 10, per_point=12 if ctx.thorough else 2,
                                        total=500 if ctx.thorough else 88)
     replay_job = Bg(replay_sharded, ctx, chosen, 10 if ctx.thorough else 8, 3)
+    cex = select_cex(ctx, cex_jobs, 30 if ctx.thorough else 5)
+    cex_job = Bg(replay_sharded, ctx, cex, 6 if ctx.thorough else 5, 2, "-cex")
 
     for m, cfg, exp, job in mc_jobs:
         r = job.wait()
@@ -285,8 +357,9 @@ def run_stages(ctx, gen_jobs, scen_jobs, pipe_job, num):
             ctx.cov["states"] += r.distinct
             ctx.cov["transitions"] += r.generated
         if r.coverage:
-            ctx.check_vacuity(r, m, ignore=("WriterFiltered", "WriterAsk"))  # exercised by MC_Upstream_banned_*.cfg / MC_Upstream_ask_*.cfg
+            ctx.check_vacuity(r, m, ignore=("WriterFiltered", "WriterFilteredFlush", "WriterAsk"))  # exercised by MC_Upstream_banned_*.cfg / MC_Upstream_ask_*.cfg
     judge_replays(ctx, chosen, n_uniq, *replay_job.wait())
+    judge_replays(ctx, cex, None, *cex_job.wait())
     judge_scenarios(ctx, scen_jobs)
     finish_pipeline(ctx, pipe_job, "c02")
     ctx.cov["rule"] = ("behaviours = TLC simulation of UpstreamGen (seeded), stratified over the fault point; a mandatory stratum per named "
@@ -295,11 +368,19 @@ def run_stages(ctx, gen_jobs, scen_jobs, pipe_job, num):
 
 
 def judge_replays(ctx, behs, n_uniq, results, crashes):
+    cex = n_uniq is None   # counterexample strata: divergence is the expected outcome on a tree that is not the broken variant
     for rc, se, started in crashes:
         beh = behs[started - 1] if started and started <= len(behs) else None
         if "close of closed channel" in se:
-            wins = primary_window(beh["windows"]) if beh else "no-window"
-            ctx.violation("double-completion/" + wins, "a request was completed twice: the processor panicked (close of closed channel)",
+            # the worker process died in the behaviour it had announced: a second completion closes a closed channel
+            # named after the goroutine that completed the request the second time (first frame of the panic below SetResponse):
+            # the replay may have left the model's path at a Go select before the crash, the stack is what happened
+            frames = [(t, f) for (t, f) in re.findall(r"proc/redis\.\(\*(\w+)\)\.(\w+)", se[se.find("panic:"):]) if f != "SetResponse"]
+            who = "%s.%s" % frames[0] if frames else "unattributed"
+            wins = primary_window(beh["windows"], prefer="W_FilteredFlushOnDeadConn") if beh else "no-window"
+            ctx.violation("double-completion/" + who,
+                          "a request was completed twice by %s: the processor panicked (close of closed channel) in a behaviour of stratum %s "
+                          "(windows of the behaviour: %s)" % (who, beh["stratum"] if beh else "?", "+".join(beh["windows"]) if beh else wins),
                           {"behaviour": beh, "stderr": se[-2000:]})
         else:
             raise kit.Inconclusive("c02-replay exited %d: %s" % (rc, se[-1500:]))
@@ -332,12 +413,29 @@ def judge_replays(ctx, behs, n_uniq, results, crashes):
             ctx.violation("lost-request/" + win,
                           "request(s) %s never answered on an open connection (windows passed: %s; fault point %s)" % (
                               res["lost"], "+".join(seen) or "none", beh["at"]), art)
+        if res.get("misdirected"):
+            mwin = primary_window(seen, prefer="W_SenderEnqueuedAtQuit")
+            ctx.violation("misdirected-reply/" + mwin,
+                          "request(s) %s got a reply that is neither an error nor the value of their own key: %s (windows passed: %s; "
+                          "fault point %s)" % (res["misdirected"], {r: res["replies"].get(r) for r in res["misdirected"]},
+                                               "+".join(seen) or "none", beh["at"]), art)
         if res.get("double") or any(res.get("extra", {}).values()):
             ctx.violation("double-reply/" + win, "request answered more than once: %s %s" % (res.get("double"), res.get("extra")), art)
         if res.get("stopperHung"):
             ctx.violation("client-stop-hangs/" + win,
                           "client.Stop (host removal) did not return: the backend connection never finished its drain "
                           "(windows passed: %s; fault point %s)" % ("+".join(seen) or "none", beh["at"]), art)
+    if cex:
+        per = {}
+        for idx, beh in enumerate(behs, start=1):
+            r = results.get(idx) or {}
+            d = per.setdefault(beh["stratum"], {"behaviours": 0, "followed_to_the_violation": 0})
+            d["behaviours"] += 1
+            d["followed_to_the_violation"] += 1 if r.get("exact") else 0
+        ctx.cov["replay_counterexamples"] = {"variants": CEX, "per_variant": per, "replayed": good, "not_run_after_a_violation": skipped}
+        if not ctx.violations and good < len(behs) * 0.8:
+            raise kit.Inconclusive("counterexample replay unhealthy: %d behaviours, %d replayed" % (len(behs), good))
+        return
     ctx.cov["replay"] = {"behaviours_generated_distinct": n_uniq, "behaviours": len(behs), "replayed": good, "followed_exactly": exact,
                          "diverged_at_a_go_select": good - exact, "not_run_after_a_violation": skipped,
                          "followed_exactly_per_window": strata,
@@ -358,7 +456,7 @@ def judge_replays(ctx, behs, n_uniq, results, crashes):
 def split_vectors(ctx):
     """vectors of UpstreamSplit.tla: every reachable way in which the last children of a split request are answered at the
     same instant (exhaustive run, one line per state of the window)"""
-    r = ctx.tlc("redis", "UpstreamSplit", "Gen_UpstreamSplit.cfg", workers=2, timeout=300)
+    r = limited(ctx.tlc, "redis", "UpstreamSplit", "Gen_UpstreamSplit.cfg", workers=2, timeout=300)
     if r.timeout or r.error or r.violated:
         raise kit.Inconclusive("UpstreamSplit vector generation failed: %s %s" % (r.error[:500], r.violated))
     vecs, seen = [], set()
